@@ -384,18 +384,40 @@ def o_to_pgl(A, bilinear_form=np.diag([-1, 1, 1])):
 
     A_d = conj_i @ A @ conj
 
-    a = np.sqrt(np.abs(A_d[0, 0]))
-    b = np.sqrt(np.abs(A_d[0, 2]))
-    c = np.sqrt(np.abs(A_d[2, 0]))
-    d = np.sqrt(np.abs(A_d[2, 2]))
+    # A_d is (plus or minus) the action of [[a, b], [c, d]] on binary
+    # quadratic forms in the monomial basis {e2^2, e1 e2, e1^2} used
+    # by sl2_irrep: its columns are (d^2, 2bd, b^2), (cd, ad + bc, ab)
+    # and (c^2, 2ac, a^2). Recover the entry of largest modulus from a
+    # corner and the other three by division, so that no sign is read
+    # off a vanishing product.
 
     # TODO: make this vector-safe, right now the docstring is a lie
-    if A_d[0][1] < 0:
-        b = b * -1
-    if A_d[1][0] < 0:
-        c = c * -1
-    if A_d[1][2] * A_d[0][1] < 0:
-        d = d * -1
+    corners = [A_d[2, 2], A_d[2, 0], A_d[0, 2], A_d[0, 0]]
+    pivot = int(np.argmax(np.abs(corners)))
+    if corners[pivot] < 0:
+        A_d = -A_d
+
+    root = np.sqrt(np.abs(corners[pivot]))
+    if pivot == 0:
+        a = root
+        b = A_d[2, 1] / a
+        c = A_d[1, 2] / (2 * a)
+        d = (A_d[1, 1] - b * c) / a
+    elif pivot == 1:
+        b = root
+        a = A_d[2, 1] / b
+        d = A_d[1, 0] / (2 * b)
+        c = (A_d[1, 1] - a * d) / b
+    elif pivot == 2:
+        c = root
+        a = A_d[1, 2] / (2 * c)
+        d = A_d[0, 1] / c
+        b = (A_d[1, 1] - a * d) / c
+    else:
+        d = root
+        b = A_d[1, 0] / (2 * d)
+        c = A_d[0, 1] / d
+        a = (A_d[1, 1] - b * c) / d
 
     return np.array([[a, b],
                      [c, d]])
